@@ -35,8 +35,20 @@ func vDirectiveBoundariesScan(doc string) []int {
 // [bounds[a], bounds[a+span]) moved into piece.jst and replaced by an INCLUDE
 // (optionally the piece is itself split once more: depth 2). The cut position a,
 // the line end after INCLUDE and the tail of the included file are symbolic.
+// vC09Extra: further rule-rejected documents (doc index = len(vLayoutDocs) + i): the error is
+// raised while a macro body is expanded at its PASTE; the MACRO may end up in an included file.
+var vC09Extra = []string{
+	"JSIGHT 0.3\nMACRO @m\n(\n  200 any\n)\nTYPE @t any\nPASTE @m\n",
+	"JSIGHT 0.3\nTYPE @t any\nMACRO @inner\n(\n  Body any\n)\nMACRO @m\n(\n  PASTE @inner\n)\nTYPE @u any\nPASTE @m\n",
+}
+
 func HIncludeSplit() {
-	doc := strings.ReplaceAll(vLayoutDocs[vParam("doc", 0)], "\r\n", "\n")
+	var doc string
+	if di := vParam("doc", 0); di < len(vLayoutDocs) {
+		doc = strings.ReplaceAll(vLayoutDocs[di], "\r\n", "\n")
+	} else {
+		doc = vC09Extra[di-len(vLayoutDocs)]
+	}
 	span := vParam("span", 1)
 	depth := vParam("depth", 1)
 	bounds := vDirectiveBoundaries(doc)
@@ -95,6 +107,8 @@ func HIncludeSplit() {
 	vAssert((jeA == nil) == (jeB == nil), "c09-include-changes-accept-reject")
 	if jeA != nil {
 		vAssert(vMsgClass(jeA) == vMsgClass(jeB), "c09-include-changes-error-class")
+		// "rejected with the same message": the whole text, not only its class
+		vAssert(jeA.Msg == jeB.Msg, "c09-include-changes-error-message")
 		if strings.HasSuffix(jeA.File.Name(), "/root.jst") && depth == 1 {
 			idx := int(jeA.Index)
 			switch {
